@@ -223,6 +223,7 @@ pub(crate) fn command_headers(objs: &[u8]) -> Option<CommandHeaders> {
     let mut b = CommandBuilder::new();
     let mut i = 0;
     let mut nh = 0;
+    let mut prev_kind: Option<(u8, u8, usize)> = None;
     while i < objs.len() {
         if i + 3 > objs.len() {
             return None;
@@ -251,6 +252,13 @@ pub(crate) fn command_headers(objs: &[u8]) -> Option<CommandHeaders> {
         if count == 0 || i + count * (isz + osz) > objs.len() {
             return None;
         }
+        // two consecutive headers of the same kind need an explicit `finish_header` in between; otherwise the
+        // builder itself closes the header in progress when a command of another kind is added (S158: that
+        // path must keep the header it closes)
+        if prev_kind == Some((g, v, isz)) {
+            b.finish_header();
+        }
+        prev_kind = Some((g, v, isz));
         for _ in 0..count {
             let idx: u16 = if isz == 1 { objs[i] as u16 } else { u16::from_le_bytes([objs[i], objs[i + 1]]) };
             let o = &objs[i + isz..i + isz + osz];
@@ -275,7 +283,6 @@ pub(crate) fn command_headers(objs: &[u8]) -> Option<CommandHeaders> {
             }
             i += isz + osz;
         }
-        b.finish_header();
         nh += 1;
     }
     if nh == 0 {
